@@ -58,6 +58,12 @@ func main() {
 			code, err = stagea.ReplayC12(*replay, rep)
 		case "C09", "C11", "C18":
 			code, err = stageb.ReplayB(id, *replay, rep)
+		case "C14":
+			// every C14 case is a deterministic regeneration of a directory of
+			// the tree itself: replaying is re-running the (35 s) check
+			rep.ReplayPath = *replay
+			_, err = stagea.CheckC14(*tier, seed, rep)
+			code = rep.ExitCode()
 		default:
 			fmt.Fprintf(os.Stderr, "replay not supported for %s\n", id)
 		}
